@@ -288,6 +288,11 @@ def add_coalescent(parser):
 
 
 def check_arguments(arg, parser):
+    if arg.coalescent is not None and arg.clock is None:
+        parser.error(
+            "coalescent models are priors on time trees: a clock model is required"
+            " (--clock)"
+        )
     if arg.coalescent in COALESCENT_PIECEWISE:
         piecewise_grid = COALESCENT_PIECEWISE.copy()
         piecewise_grid.remove("skyride")
